@@ -233,7 +233,7 @@ theorem serverSuites_ok {ss : Settings} {sc : ServerCfg} {o : Offer} {v : Nat} {
           · cases hl0
   · cases h
 
-theorem mem_prfFiltered {ss : Settings} {o : Offer} {l : List Nat} {s : Nat} (h : s ∈ prfFiltered ss o l) : s ∈ l := by
+theorem mem_prfFiltered {ss : Settings} {o : Offer} {v : Nat} {l : List Nat} {s : Nat} (h : s ∈ prfFiltered ss o v l) : s ∈ l := by
   unfold prfFiltered at h
   split at h
   · exact h
